@@ -21,7 +21,7 @@ func init() {
 			"C14.6 closed means silent: the one socket write is dominated by closed.IsSet()=false evaluated under the lock in the same call (shared with C19.1); " +
 			"C14.7 every blocking operation (channel wait, WaitGroup.Wait, socket I/O) executes with Server.mu released in every calling context, so a join can never wait for a query that needs the lock to finish; " +
 			"C14.9 inside every function installed as a traversal's DoQuery callback, each blocking channel operation is a select with a receive on Done() of the callback's own context parameter (the context the traversal cancels when it starts stopping, C04.4) or on a close event every setter of which also stops the lookup - not the caller's context, and not an event such as Stopped() that itself waits for the callback to return; " +
-			"C14.8 each goroutine that reports Done on a WaitGroup is counted by Add in the starting goroutine before the go statement.",
+			"C14.8 each goroutine that reports Done on a WaitGroup is counted by Add in the starting goroutine before the go statement. C14.11 no goroutine the library starts waits only on Done() of a SetOnce field (an event only a user Close() sets): bare receive or select of such cases only; C14.12 a response is delivered only to a transaction removed from the table by the lookup that found it (a non-removing lookup is decided as a violation; shared with C07.2).",
 		NotDecided: "goroutine and datagram counts at run time, latency bounds, behaviour of custom Conn implementations; whether callers of the public API (Announce.Close, StopTraversing) are eventually invoked.",
 		Assume:     []string{"traversal.Operation.Stop is idempotent (guarded by stopping.Set())"},
 		Rules: []*Rule{
@@ -35,7 +35,73 @@ func init() {
 			{ID: "C14.9", Doc: "a query callback can always be released by stopping its lookup: each of its blocking channel operations has a case on its own query context", Floor: 3, Run: c14r9},
 			{ID: "C14.10", Doc: "every wait inside the send routine can be ended by the caller's context (a held sender would keep Query from returning)", Floor: 1, Run: c14r10},
 			{ID: "C14.8", Doc: "WaitGroup joins count every goroutine before it starts", Floor: 3, Run: c14r8},
+			{ID: "C14.11", Doc: "no library goroutine waits only for an event that the user alone can cause (a Close() that may never come)", Floor: 5, Run: c14r11},
+			{ID: "C14.12", Doc: "a response is delivered only to a transaction removed from the table in the same critical section: at most one delivery per transaction (shared with C07.2)", Floor: 5, Run: c07r2},
 		},
+	})
+}
+
+// c14r11: every goroutine the library starts is examined; a bare receive (or a select all of whose
+// cases are such receives) on Done() of a SetOnce field - an event set only by a Close-like call of
+// the user - keeps the goroutine alive for as long as the user does not close the object, i.e.
+// possibly for ever, one per operation. A watcher must also wait on something that is bound to
+// happen (its own context, cancelled by a deferred cancel; the traversal's Stopped()).
+func c14r11(w *World, rr *RuleRun) {
+	userEvent := func(ch *Term) bool {
+		if ch.Op != OpCall || suffixName(ch) != "Done" || !strings.Contains(ch.Name, "SetOnce") || len(ch.Args) != 1 {
+			return false
+		}
+		at := ch.Args[0]
+		return at.Op == OpAddr && len(at.Args) == 1 && at.Args[0].Op == OpField
+	}
+	seen := map[*ssa.Function]bool{}
+	eachInstr(w.P.LibFuncs, func(fn *ssa.Function, ins ssa.Instruction) {
+		g, ok := ins.(*ssa.Go)
+		if !ok {
+			return
+		}
+		var target *ssa.Function
+		switch v := g.Call.Value.(type) {
+		case *ssa.MakeClosure:
+			target, _ = v.Fn.(*ssa.Function)
+		case *ssa.Function:
+			target = v
+		}
+		if target == nil {
+			target = g.Call.StaticCallee()
+		}
+		if target == nil || !w.P.IsLib(target) || len(target.Blocks) == 0 || seen[target] {
+			return
+		}
+		seen[target] = true
+		bad := ssa.Instruction(nil)
+		what := ""
+		eachInstr([]*ssa.Function{target}, func(_ *ssa.Function, i2 ssa.Instruction) {
+			switch x := i2.(type) {
+			case *ssa.UnOp:
+				if x.Op == token.ARROW && userEvent(w.TS.Of(x.X)) {
+					bad, what = i2, "bare receive from "+trunc(w.TS.Of(x.X).String(), 80)
+				}
+			case *ssa.Select:
+				if !x.Blocking || len(x.States) == 0 {
+					return
+				}
+				all := true
+				for _, st := range x.States {
+					if !(st.Dir == types.RecvOnly && userEvent(w.TS.Of(st.Chan))) {
+						all = false
+					}
+				}
+				if all {
+					bad, what = i2, "select with only user-driven close events"
+				}
+			}
+		})
+		if bad != nil {
+			rr.At(w, bad, "a started goroutine does not wait only for the user's Close()", false, what+" in a goroutine started at "+w.P.Pos(g.Pos()))
+		} else {
+			rr.Oblige(shortFuncName(target), "a started goroutine does not wait only for the user's Close()", w.P.Pos(target.Pos()), true, "")
+		}
 	})
 }
 
